@@ -201,7 +201,7 @@ PROPERTIES["C04"] = {
           budget={"quick": 120, "thorough": 200}, required_covers=["c04.actor.handler-ran"]),
         M("c04_read_cycles", "d_c04", "read_cycles",
           {"quick": "ZmqMessageProcessor::read_and_process (the tokio session's read cycle: awaited read, greedy try_read_chunk drain, on_network_bytes; coroutine MIR) over a scripted stream of 1..2 small data frames (symbolic payload byte), or one 28-byte frame with MAXMSGSIZE symbolic in 28..64 (a legal frame at the size limit), that ends with EOF: every split of the bytes over awaited reads and greedy chunks with piece sizes {1 byte, to the end of the frame, everything}, the end of the stream seen by the greedy drain or by the next awaited read",
-           "thorough": "all piece sizes"},
+           "thorough": "all piece sizes for the small-frame streams (the 28-byte frame keeps the quick tier's cuts)"},
           params={"quick": {}, "thorough": {"all_piece_sizes": True}}, budget={"quick": 600, "thorough": 2400},
           required_covers=["c04.reader.eof-seen-by-greedy-drain", "c04.reader.all-delivered"]),
     ],
@@ -734,3 +734,9 @@ PROPERTIES["C14"]["mirsym"].append(
       "ReqSocket::send with no peer connected (coroutine MIR, real LoadBalancer::wait_for_connection), SNDTIMEO any positive value (symbolic), symbolic clock, recording timers; up to 2 peers that connect and are gone again before the sender runs, then a peer stays or the timer fires",
       params={"quick": {"rounds": 2}, "thorough": {"rounds": 3}}, budget={"quick": 300, "thorough": 600},
       required_covers=["c14.req-wait.woken-without-a-peer", "c14.req-wait.completed-after-wait", "c14.req-wait.timed-out"]))
+PROPERTIES["C02"]["mirsym"].append(
+    M("c02_rep_reply_flags", "d_c10", "rep_reply_flags",
+      "RepSocket::{recv_multipart, send, send_multipart} (coroutine MIR) over the real AddressedIngressEngine: a request of every envelope shape (0..1 routing-prefix frames, the empty delimiter, 0..2 body frames - also a request that ends with the delimiter), then a reply through send(msg) (MORE flag arbitrary) or send_multipart(1..3 frames, every MORE flag arbitrary); the frames handed to the connection are compared with prefix + delimiter + reply, MORE on all but the last",
+      budget={"quick": 300, "thorough": 300},
+      required_covers=["c02.rep-reply.envelope-only-request", "c02.rep-reply.multi-frame-reply"]))
+PROPERTIES["C02"]["manifest"]["text"] += " REP: whatever the envelope shape of the request (also one that ends with the delimiter) and whatever MORE flags the application set, the reply reaches the connection as one unit: routing prefix, delimiter, reply frames, MORE on every frame but the last."
